@@ -580,7 +580,88 @@ def check_scanners(rep, crate, cfg, rule='R13.7', prefix=''):
     return n
 
 
+LEXICAL = {'ws', 'whitespace_only', 'comment_def'}
+SEARCH_NAMES = {'position', 'rposition', 'find', 'find_map', 'any', 'all', 'contains', 'windows', 'split', 'splitn', 'rsplit', 'iter_position', 'memchr', 'memrchr', 'memmem'}
+
+
+def check_no_byte_search(rep, crate, cfg, rule='R13.9'):
+    """phrase-level parsers decide by parsing tokens, never by searching the raw bytes ahead (blind to comments and nesting)"""
+    lexical = set(LEXICAL) | {p.split('::')[-1] for p in SCANNERS}
+    for path in SCANNERS:
+        r = _scan(crate, path)
+        if r is not None and r[0] is not None:
+            lexical |= {p.split('::')[2] for p in r[0].inlined if p.startswith(MOD)}
+    n = 0
+    hits = []
+    for b in parser_bodies(crate):
+        owner = b.path.split('::')[2] if len(b.path.split('::')) > 2 else b.name
+        for blk, t in b.iter_terms('call'):
+            c = t['callee']
+            p = c.get('resolved') or c.get('def') or ''
+            nm = c.get('name')
+            on_bytes = ('slice' in p or 'memchr' in p or 'Iter<' in p or 'u8' in (c.get('args') or '')) and 'winnow' not in p
+            if nm in SEARCH_NAMES and on_bytes and not t.get('mac'):
+                n += 1
+                if owner not in lexical:
+                    hits.append((b, blk, nm))
+    seen = set()
+    for b, blk, nm in hits:
+        key = '%s|byte-search|%s|%s' % (b.path.split('::{')[0], nm, cfg)
+        if key in seen:
+            continue
+        seen.add(key)
+        rep.bad(rule, key, C.where(b, blk),
+                'the parser function %s decides by searching the unparsed bytes (`%s`) instead of parsing tokens: the search is blind to comments and to nesting, so a `:` or `)` inside '
+                'a comment or an inner type changes the decision and a legal text is rejected or misread' % (b.path.split('::')[2], nm))
+    rep.check(not hits, rule, 'phrase-parsers|no-byte-search|%s' % cfg, 'zlink-core/src/idl/parse/mod.rs',
+              'content searches over raw bytes occur only in the lexical helpers %s (%d such calls)' % (sorted(lexical), n),
+              '%d phrase-level byte searches' % len(hits))
+
+
+COMMENT_BLIND = {'whitespace_only'}
+MEMBER_START = {'field_name'}
+
+
+def check_member_start_after_comments(rep, crate, cfg, rule='R13.10'):
+    """a member (field / parameter / variant) can be preceded by comment lines: the nearest parser step before a member-name scan is never a
+    comment-blind white-space skip"""
+    n = 0
+    for b in parser_bodies(crate):
+        if b.kind != 'Fn':
+            continue
+        sites = [(blk, t) for blk, t in b.iter_terms('call') if (t['callee'].get('def') or '').startswith(MOD) and t['callee'].get('name') in MEMBER_START]
+        for blk, t in sites:
+            n += 1
+            # nearest preceding parser calls on every path
+            seen, work, nearest = set(), list(b.pred(blk)), set()
+            while work:
+                x = work.pop()
+                if x in seen:
+                    continue
+                seen.add(x)
+                tx = b.term(x)
+                if tx['k'] == 'call':
+                    d = tx['callee'].get('def') or ''
+                    nm = tx['callee'].get('name')
+                    if d.startswith(MOD) and b.crate.by_path.get(d) is not None and nm not in ('bytes_to_str',):
+                        nearest.add((nm, x))
+                        continue
+                    if nm == 'parse_next':
+                        a = tx['callee'].get('args') or ''
+                        nearest.add(('multispace' if 'multispace' in a else 'token', x))
+                        continue
+                work.extend(b.pred(x))
+            blind = sorted(nm for nm, x in nearest if nm in COMMENT_BLIND or nm == 'multispace')
+            rep.check(not blind, rule, '%s|member-start|%s|%s' % (b.path, ','.join(sorted({nm for nm, x in nearest})), cfg), C.where(b, blk),
+                      'the member name is scanned after %s' % sorted({nm for nm, x in nearest}),
+                      'in %s a member name is scanned right after the comment-blind skip `%s`: a comment line placed before that member (legal, and written there by Display) '
+                      'makes the scan fail and the text is rejected or misclassified' % (b.name, blind[0] if blind else ''))
+    return n
+
+
 def check(fx, rep, tier):
+    rep.rule('R13.9', 'phrase-level parser functions never search the unparsed bytes ahead (position / contains / find ...): such look-ahead is blind to comments and nesting; only the lexical helpers inspect raw bytes')
+    rep.rule('R13.10', 'the nearest parser step before every member-name scan is comment-aware (ws / parse_preceding_comments) or a token, never the comment-blind white-space skip')
     rep.rule('R13.7', 'the name scanners accept exactly the grammar\'s lexical rules: abstract interpretation of the scanner MIR over an unknown input '
              '(byte-class knowledge per position, window-relative positions) in lock-step with the DFA of the rule; every Ok return is in the '
              'language and consumes exactly the name, no Err / shorter Ok is possible for an input whose name is legal, no assertion can fail')
@@ -593,6 +674,7 @@ def check(fx, rep, tier):
     rep.rule('R13.6', 'every accumulator that received parsed elements is moved into the result on every feasible Ok path')
     cfgs = ['full'] + (['nostd'] if tier == 'thorough' else [])
     nsc = 0
+    nms = 0
     for cfg in cfgs:
         crate = fx.crate('zlink_core', cfg)
         if not parser_bodies(crate):
@@ -608,5 +690,8 @@ def check(fx, rep, tier):
         if cfg == 'full':
             import c14
             c14.check_comment_confined(rep, crate, 'R13.8')
+        check_no_byte_search(rep, crate, cfg)
+        nms += check_member_start_after_comments(rep, crate, cfg)
     rep.floor('R13.7', 21, 'scanner verdict instances (3 scanners x 7)')
+    rep.floor('R13.10', 3, 'member-name scan sites')
     return META
